@@ -552,4 +552,177 @@ theorem parseFrac_fracStr (e : Env) {v : Str} {i f : Nat} {r : Str} (hf : f ≤ 
     rw [this, dval_zpad, hl]
     simp [hl]
 
+/-! ### offsets -/
+
+theorem pyDiv_ofNat (a b : Nat) : pyDiv (a : Int) (b : Int) = ((a / b : Nat) : Int) := by
+  simp [pyDiv, Int.fdiv_eq_ediv_of_nonneg]
+
+theorem pyMod_ofNat (a b : Nat) : pyMod (a : Int) (b : Int) = ((a % b : Nat) : Int) := by
+  simp [pyMod, Int.fmod_eq_emod_of_nonneg]
+
+theorem pyDiv_60 (a : Nat) : pyDiv (a : Int) 60 = ((a / 60 : Nat) : Int) := pyDiv_ofNat a 60
+theorem pyMod_60 (a : Nat) : pyMod (a : Int) 60 = ((a % 60 : Nat) : Int) := pyMod_ofNat a 60
+theorem pyDiv_1000 (a : Nat) : pyDiv (a : Int) 1000 = ((a / 1000 : Nat) : Int) := pyDiv_ofNat a 1000
+theorem pyMod_1000 (a : Nat) : pyMod (a : Int) 1000 = ((a % 1000 : Nat) : Int) := pyMod_ofNat a 1000
+
+theorem formatOffset_pos (n : Nat) (hn : n ≠ 0) :
+    formatOffset (some (n : Int)) = '+' :: (zpad (n / 60) 2 ++ ':' :: zpad (n % 60) 2) := by
+  have h0 : (n : Int) ≠ 0 := by omega
+  have h1 : ¬ ((n : Int) < 0) := by omega
+  have hd := pyDiv_60 n
+  have hm := pyMod_60 n
+  simp only [formatOffset, h0, h1, if_false, hd, hm, zpadInt_ofNat]
+  simp
+
+theorem formatOffset_neg (n : Nat) (hn : n ≠ 0) :
+    formatOffset (some (-(n : Int))) = '-' :: (zpad (n / 60) 2 ++ ':' :: zpad (n % 60) 2) := by
+  have h0 : -(n : Int) ≠ 0 := by omega
+  have h1 : -(n : Int) < 0 := by omega
+  have hd := pyDiv_60 n
+  have hm := pyMod_60 n
+  simp only [formatOffset, h0, h1, if_false, if_true, Int.neg_neg, hd, hm, zpadInt_ofNat]
+  simp
+
+theorem parseOffset_none (e : Env) {v : Str} {i : Nat} (h : Sfx v i []) :
+    parseOffset e ⟨v, i⟩ = some (none, ⟨v, v.length⟩) := by
+  simp [parseOffset, PS.hasMore, h.done]
+
+theorem parseOffset_Z (e : Env) {v : Str} {i : Nat} (h : Sfx v i ['Z']) :
+    parseOffset e ⟨v, i⟩ = some (some 0, ⟨v, v.length⟩) := by
+  have hd := h.adv1.done
+  unfold parseOffset PS.hasMore PS.peek
+  simp only [h.get]
+  simp [h.lt, hd]
+
+theorem parseOffset_signed (e : Env) {v : Str} {i hh mm : Nat} (c : Char) (hc : c = '-' ∨ c = '+')
+    (hhh : hh < 100) (hmm : mm < 100)
+    (h : Sfx v i (c :: (zpad hh 2 ++ ':' :: (zpad mm 2 ++ [])))) :
+    parseOffset e ⟨v, i⟩ =
+      some (some (if c = '-' then ((hh : Int) * 60 + mm) * (-1) else ((hh : Int) * 60 + mm) * 1),
+        ⟨v, v.length⟩) := by
+  have h1 := h.adv1
+  have h2 := h1.adv_zpad2 hhh
+  have h3 := h2.adv1
+  have h4 := h3.adv_zpad2 hmm
+  have hd := h4.done
+  have hZ : c ≠ 'Z' := by rcases hc with rfl | rfl <;> decide
+  unfold parseOffset PS.hasMore PS.peek
+  simp only [h.get]
+  simp only [h.lt, decide_true, Bool.not_true, Bool.false_eq_true, if_false, hZ]
+  have hcc : (decide (c = '-') || decide (c = '+')) = true := by
+    rcases hc with rfl | rfl <;> decide
+  simp only [hcc, if_true, parseDigits_ok e hhh h1, skip_ok h2, parseDigits_ok e hmm h3]
+  rw [← hd]
+
+/-- `parse_offset` inverts `format_offset` (for offsets below 100 hours) and
+consumes the rest of the input -/
+theorem parseOffset_format (e : Env) {v : Str} {i : Nat} (o : Option Int)
+    (ho : ∀ x, o = some x → -6000 < x ∧ x < 6000) (h : Sfx v i (formatOffset o)) :
+    parseOffset e ⟨v, i⟩ = some (o, ⟨v, v.length⟩) := by
+  cases o with
+  | none => exact parseOffset_none e h
+  | some x =>
+    have hx := ho x rfl
+    by_cases h0 : x = 0
+    · subst h0; exact parseOffset_Z e h
+    · by_cases hneg : x < 0
+      · have hxn : x = -((x.natAbs : Nat) : Int) := by omega
+        have hn0 : x.natAbs ≠ 0 := by omega
+        rw [hxn, formatOffset_neg _ hn0] at h
+        rw [parseOffset_signed e (hh := x.natAbs / 60) (mm := x.natAbs % 60) '-' (Or.inl rfl) (by omega) (by omega) (by simpa using h)]
+        simp only [if_true]
+        congr 3
+        omega
+      · have hxn : x = ((x.natAbs : Nat) : Int) := by omega
+        have hn0 : x.natAbs ≠ 0 := by omega
+        rw [hxn, formatOffset_pos _ hn0] at h
+        rw [parseOffset_signed e (hh := x.natAbs / 60) (mm := x.natAbs % 60) '+' (Or.inr rfl) (by omega) (by omega) (by simpa using h)]
+        have : ('+' : Char) ≠ '-' := by decide
+        simp only [this, if_false]
+        congr 3
+        omega
+
+theorem offHead_formatOffset (o : Option Int) : OffHead (formatOffset o) := by
+  intro c hc
+  cases o with
+  | none => simp [formatOffset] at hc
+  | some x =>
+    by_cases h0 : x = 0
+    · simp [formatOffset, h0] at hc; exact Or.inl hc.symm
+    · by_cases hneg : x < 0
+      · simp [formatOffset, h0, hneg] at hc; exact Or.inr (Or.inl hc.symm)
+      · simp [formatOffset, h0, hneg] at hc; exact Or.inr (Or.inr hc.symm)
+
+/-! ### the printed forms, for natural-number fields -/
+
+theorem formatTime_eq (H M S F : Nat) :
+    formatTime H M S F = zpad H 2 ++ ':' :: (zpad M 2 ++ ':' :: (zpad S 2 ++ fracStr F)) := by
+  unfold formatTime fracStr
+  simp only [zpadInt_ofNat, pyDiv_1000, pyMod_1000, ne_eq, Int.natCast_eq_zero]
+  have hdd : F / 1000 / 1000 = F / 1000000 := by omega
+  rw [hdd]
+  by_cases h0 : F = 0
+  · simp [h0]
+  · by_cases h1 : F % 1000 = 0
+    · by_cases h2 : F / 1000 % 1000 = 0
+      · simp [h0, h1, h2]
+      · simp [h0, h1, h2]
+    · simp [h0, h1]
+
+/-! ### the parse loop along the concrete format strings -/
+
+theorem parseVar_two (e : Env) (p : PS) (var : Char)
+    (h : Tables.simpleTwoDigitsFormats.contains var = true) :
+    parseVar e p var = (parseDigits e p 2).map fun (v, p') => ([some v], p') := by
+  unfold parseVar; rw [if_pos h]
+
+theorem parseVar_H (e : Env) (p : PS) :
+    parseVar e p 'H' = (parseDigits e p 2).map fun (v, p') => ([some v], p') :=
+  parseVar_two e p 'H' (by decide)
+
+theorem parseVar_M (e : Env) (p : PS) :
+    parseVar e p 'M' = (parseDigits e p 2).map fun (v, p') => ([some v], p') :=
+  parseVar_two e p 'M' (by decide)
+
+theorem parseVar_m (e : Env) (p : PS) :
+    parseVar e p 'm' = (parseDigits e p 2).map fun (v, p') => ([some v], p') :=
+  parseVar_two e p 'm' (by decide)
+
+theorem parseVar_d (e : Env) (p : PS) :
+    parseVar e p 'd' = (parseDigits e p 2).map fun (v, p') => ([some v], p') :=
+  parseVar_two e p 'd' (by decide)
+
+theorem parseVar_Y (e : Env) (p : PS) :
+    parseVar e p 'Y' = (parseYear e p).map fun (v, p') => ([some v], p') := by
+  unfold parseVar; rw [if_neg (by decide), if_pos rfl]
+
+theorem parseVar_S (e : Env) (p : PS) :
+    parseVar e p 'S' = (parseDigits e p 2).bind fun (s, p1) =>
+      (parseFractionalSecond e p1).map fun (f, p2) => ([some s, some f], p2) := by
+  unfold parseVar; rw [if_neg (by decide), if_neg (by decide), if_pos rfl]
+  cases parseDigits e p 2 <;> rfl
+
+theorem parseVar_z (e : Env) (p : PS) :
+    parseVar e p 'z' = (parseOffset e p).map fun (o, p') => ([o], p') := by
+  unfold parseVar; rw [if_neg (by decide), if_neg (by decide), if_neg (by decide), if_pos rfl]
+
+theorem parseLoop_time (e : Env) {v : Str} {i : Nat} (H M S F : Nat) (o : Option Int)
+    (hH : H < 100) (hM : M < 100) (hS : S < 100) (hF : F ≤ 999999999)
+    (ho : ∀ x, o = some x → -6000 < x ∧ x < 6000)
+    (h : Sfx v i (formatTime H M S F ++ formatOffset o)) :
+    parseLoop e Tables.fmtTime ⟨v, i⟩ =
+      some [some (H : Int), some (M : Int), some (S : Int), some (F : Int), o] := by
+  rw [formatTime_eq] at h
+  simp only [List.append_assoc, List.cons_append] at h
+  have h1 := h.adv_zpad2 hH
+  have h2 := h1.adv1
+  have h3 := h2.adv_zpad2 hM
+  have h4 := h3.adv1
+  have h5 := h4.adv_zpad2 hS
+  have h6 := h5.adv
+  have hoff := offHead_formatOffset o
+  simp [Tables.fmtTime, parseLoop, parseVar_H, parseVar_M, parseVar_S, parseVar_z,
+    parseDigits_ok e hH h, skip_ok h1, parseDigits_ok e hM h2, skip_ok h3,
+    parseDigits_ok e hS h4, parseFrac_fracStr e hF hoff h5, parseOffset_format e o ho h6]
+
 end Proofs.DatesFormatParse
